@@ -32,7 +32,7 @@ CHUNK = 1500        # observations (two terms each) per TraceIdentity run
 FINDING_HASH = 'hash-based-equality'
 FINDING_TYPE = 'source-eq-ignores-type'
 CLAUSES = ('eq', 'eq_reversed', 'hash', 'dict', 'set', 'pickle', 'attribute_access', 'parser_cache', 'item_access',
-           'pickle_after_use')
+           'pickle_after_use', 'hash_consistency')
 FINDING_PICKLE = 'predicate-factors-unpicklable'
 FINDING_UNNAMED = 'unnamed-output-unpicklable'
 FINDING_KIND = 'compound-kind-unpicklable'
@@ -185,13 +185,22 @@ def expand_term(term):
     pairs = [{'sort': 'source', 'label': 'identical', 'a': term, 'b': term}]
     for label, _, m in g.mutations(term):
         pairs.append({'sort': 'source', 'label': label, 'a': term, 'b': m})
+    if respellable(term):
+        pairs.append({'sort': 'source', 'label': 'respelled', 'a': term, 'b': term, 'respell': True})
     if term['t'] == 'query':
         feats = {g.canon(f): f for f in term['sel'] + [term['where'], term['having']] if f['f'] != 'nil'}
         for f in feats.values():
             pairs.append({'sort': 'feature', 'label': 'identical', 'a': f, 'b': f})
             for label, _, m in g.mutations(f):
                 pairs.append({'sort': 'feature', 'label': label, 'a': f, 'b': m})
+            if respellable(f):
+                pairs.append({'sort': 'feature', 'label': 'respelled', 'a': f, 'b': f, 'respell': True})
     return pairs
+
+
+def respellable(term):
+    """The term holds a literal leaf whose value has another python spelling (dslgen.respell)."""
+    return any(g.is_feature(n) and n['f'] == 'lit' and g.respell(g.lit_value(n)) is not None for _, n in g.walk(term))
 
 
 def base_terms(chk, rnd):
@@ -205,6 +214,11 @@ def fixed_pairs():
     for x, y in g.COLLIDING_SAME_KIND + g.COLLIDING_CROSS_KIND + [(1, 2), ('a', 'b'), (True, False), (0.5, 1.5)]:
         pairs.append({'sort': 'feature', 'label': 'literal' if type(x) is type(y) else 'literal_kind',
                       'a': g.lit(x), 'b': g.lit(y)})
+    # literal leaves built from two python spellings of one value (a plain constant / the numpy or pandas scalar read back
+    # from data, float zeros of either sign)
+    import datetime
+    for x in (7, -1, 0, 2.5, 0.0, -1.0, 'a', '', datetime.datetime(2020, 1, 1, 12)):
+        pairs.append({'sort': 'feature', 'label': 'respelled', 'a': g.lit(x), 'b': g.lit(x), 'respell': True})
     # a source against a feature made of the same two items
     # (the other direction, feature == source, is the DSL comparison operator applied to a non-literal: an error by design)
     A = g.TABLES['A']
@@ -219,7 +233,7 @@ def fixed_pairs():
 
 
 def pair_key(p):
-    return p['sort'] + g.canon(p['a']) + g.canon(p['b'])
+    return p['sort'] + ('~' if p.get('respell') else '') + g.canon(p['a']) + g.canon(p['b'])
 
 
 # --------------------------------------------------------------------------------------------- measurement
@@ -246,12 +260,12 @@ def build_schema(term, variant):
     return g.make_table('Declared', term).schema
 
 
-def construct(sort, term, second):
+def construct(sort, term, second, respelled=False):
     if sort == 'kind':
         return build_kind(term)
     if sort == 'schema':
         return build_schema(term, 1 if second else 0)
-    return g.build(term, fresh=second)
+    return g.build(term, fresh=second, respelled=respelled)
 
 
 def sql_text(selectable):
@@ -304,7 +318,7 @@ def measure_pair(p):
     sort = p['sort']
     o = {'x_eq': False, 'eq': False, 'eqr': False, 'heq': False, 'dhit': False, 'ssize': 0, 'x_pk': False, 'pk_self': False,
          'pk_b': False, 'a_na': True, 'a_ok': False, 'c_na': True, 'c_ret_ok': False, 'c_hit': False, 'g_na': True,
-         'g_ok': False, 'u_na': True, 'u_ok': False, 'note': ''}
+         'g_ok': False, 'u_na': True, 'u_ok': False, 'resp': bool(p.get('respell')), 'note': ''}
     try:
         sa = sort if sort != 'mixed' else ('source' if g.is_source(p['a']) else 'feature')
         sb = sort if sort != 'mixed' else ('source' if g.is_source(p['b']) else 'feature')
@@ -314,7 +328,7 @@ def measure_pair(p):
             a = pickle.loads(base64.b64decode(p['foreign']))
         else:
             a = construct(sa, p['a'], False)
-        b = construct(sb, p['b'], True)
+        b = construct(sb, p['b'], True, bool(p.get('respell')))
     except Exception as exc:  # pylint: disable=broad-except
         return None, f'{type(exc).__name__}'  # the changed term is not constructible: no pair
     try:
@@ -337,6 +351,8 @@ def measure_pair(p):
     except Exception as exc:  # pylint: disable=broad-except
         o['x_pk'] = True
         o['note'] += f'pickle:{type(exc).__name__} '
+    if o['resp']:
+        return o, None  # (the projection of a literal is the text of its python value: spelling-dependent by construction)
     if sort in ('source', 'feature'):
         try:
             o['a_ok'] = g.canon(g.project(a)) == g.canon(p['a']) and g.canon(g.project(b)) == g.canon(p['b'])
@@ -492,19 +508,24 @@ def trace_identity(chk, terms, extra, procs):
     # identical pair and a consistent different pair are accepted, each corruption of them is rejected
     q_a, q_b = g.query(g.TABLES['A']), g.query(g.TABLES['B'])
     na = {'a_na': True, 'a_ok': False, 'c_na': True, 'c_ret_ok': False, 'c_hit': False, 'g_na': True, 'g_ok': False,
-          'u_na': True, 'u_ok': False, 'x_eq': False, 'x_pk': False}
+          'u_na': True, 'u_ok': False, 'x_eq': False, 'x_pk': False, 'resp': False}
     good_same = dict(na, a=q_a, b=q_a, eq=True, eqr=True, heq=True, dhit=True, ssize=1, pk_self=True, pk_b=True)
     good_diff = dict(na, a=q_a, b=q_b, eq=False, eqr=False, heq=False, dhit=False, ssize=2, pk_self=True, pk_b=False)
     obs += [good_same, good_diff, dict(good_same, eq=False),
             dict(good_diff, eq=True, eqr=True, dhit=True, ssize=1, heq=True, pk_b=True), dict(good_same, heq=False),
-            dict(good_diff, c_na=False, c_ret_ok=False)]
+            dict(good_diff, c_na=False, c_ret_ok=False),
+            dict(good_same, resp=True), dict(good_same, resp=True, eq=False, eqr=False, dhit=False, ssize=2, pk_b=False),
+            dict(good_same, resp=True, heq=False, dhit=False, ssize=2)]
     verdicts = run_trace(chk, obs, procs)
     t2 = time.time()
     chk.selftest('consistent_pairs_accepted', verdicts[n_real][:2] == [1, 1] and verdicts[n_real + 1][:2] == [0, 1])
     chk.selftest('unequal_identical_pair_rejected', verdicts[n_real + 2][1] == 0 and 'eq' in verdicts[n_real + 2][2])
     chk.selftest('equal_different_pair_rejected', verdicts[n_real + 3][1] == 0 and verdicts[n_real + 3][0] == 0)
-    chk.selftest('hash_of_identical_pair_rejected', verdicts[n_real + 4][1] == 0 and verdicts[n_real + 4][2] == ['hash'])
+    chk.selftest('hash_of_identical_pair_rejected', verdicts[n_real + 4][1] == 0 and verdicts[n_real + 4][2] == ['hash', 'hash_consistency'])
     chk.selftest('confused_parser_cache_rejected', verdicts[n_real + 5][2] == ['parser_cache'])
+    chk.selftest('respelled_literals_consistent_either_way_accepted', verdicts[n_real + 6][1] == 1 and verdicts[n_real + 7][1] == 1)
+    chk.selftest('equal_objects_hashing_differently_rejected',
+                 verdicts[n_real + 8][1] == 0 and 'hash_consistency' in verdicts[n_real + 8][2])
     by_label = collections.Counter()
     collisions = 0
     notes = collections.Counter()
@@ -527,6 +548,8 @@ def trace_identity(chk, terms, extra, procs):
                 f'pickle={o["pk_self"]}/{o["pk_b"]} attr_ok={o["a_ok"] or o["a_na"]} cache_ok={o["c_ret_ok"] or o["c_na"]} '
                 f'cache_hit={o["c_hit"]} item_ok={o["g_ok"] or o["g_na"]} {o["note"]}) {_show(p)} [{ctx}]')
         chk.fail(what, {'kind': 'pair', 'pair': p, 'observed': o, 'failing': failing}, classify(p, failing, o['note']))
+    if not any(k.endswith(':respelled') for k in by_label):
+        raise tlc.MachineryError('no pair of respelled literals was measured')
     chk.extra['pairs'] = {'measure_s': round(t1 - t0, 1), 'tlc_s': round(t2 - t1, 1), 'pairs': len(pairs),
                           'observations_judged': n_real, 'by_sort_and_label': dict(sorted(by_label.items())),
                           'mutants_not_constructible': dict(skipped), 'hash_collisions_without_equality': collisions,
@@ -716,6 +739,8 @@ def replay(chk, path):
         print(_show(rep['pair']))
         print('observed now:', o, why)
         same = g.canon(rep['pair']['a']) == g.canon(rep['pair']['b'])
+        if o is not None and o['resp']:
+            same = o['eq']  # respelled literals: hash / dict / set / pickling follow whatever == answers
         ok = o is not None and o['eq'] == o['eqr'] == o['dhit'] == o['pk_b'] == same and (not same or o['heq']) and \
             o['pk_self'] and (o['c_na'] or o['c_ret_ok']) and (o['g_na'] or o['g_ok']) and (o['a_na'] or o['a_ok']) and \
             (o['u_na'] or o['u_ok']) and not o['x_eq'] and not o['x_pk']
